@@ -9,11 +9,15 @@ import support as S
 
 RULE = ("tables of 1..4 rows with column subsets {nonlinear, +ln_prior, +K,v0}, units {day|yr, rad|deg, km/s|m/s}, metadata (t_ref given/None, "
         "poly_trend 1|2, n_offsets 0|1); histories of length <= 3 over {write, overwrite, append, append-incompatible(extra column / missing column / "
-        "other unit / other metadata)}; read_batch with tuples, slices, shuffled index arrays (with repeats), random subsets, unit conversion; "
+        "other unit / other metadata)}; read_batch with tuples, slices, shuffled index arrays (with repeats; descending or permuted contiguous blocks; repeats whose span equals their count; a permutation of all rows), random subsets, unit conversion; "
         "FITS round trip; non-trivial = more than one row or an append")
 EXHAUSTIVE = False
 BOUNDED = ["serialisation itself is astropy's / h5py's"]
 BUDGET_S = {"quick": 60, "thorough": 600}
+
+
+_IDX_SHAPES = {"idx-block-descending": lambda n: [5, 4, 3, 2], "idx-block-permuted": lambda n: [3, 5, 2, 4],
+               "idx-repeats-spanning-their-count": lambda n: [2, 2, 4, 5], "idx-all-rows-permuted": lambda n: list(range(n))[::-1][1:] + [n - 1]}
 
 
 def cases(tier, seed):
@@ -25,7 +29,7 @@ def cases(tier, seed):
     for bad in ("extra-column", "missing-column", "other-unit", "other-meta", "compatible"):
         for n in (1, 3):
             yield f"append/{bad}/{n}", {"kind": "append", "bad": bad, "n": n}
-    for sel in ("tuple", "slice", "idx", "idx-shuffled", "idx-repeats", "random"):
+    for sel in ("tuple", "slice", "idx", "idx-shuffled", "idx-repeats", "idx-block-descending", "idx-block-permuted", "idx-repeats-spanning-their-count", "idx-all-rows-permuted", "random"):
         for conv in (False, True):
             yield f"read/{sel}/{conv}", {"kind": "read", "sel": sel, "conv": conv, "seed": int(seed)}
 
@@ -155,6 +159,10 @@ def check(inp):
         got, rows = read_batch(p, cols, np.array([5, 0, 6, 2]), units=units), [5, 0, 6, 2]
     elif sel == "idx-repeats":
         got, rows = read_batch(p, cols, np.array([4, 4, 1]), units=units), [4, 4, 1]
+    elif sel in _IDX_SHAPES:
+        # index arrays whose end points look like one contiguous block although the array is not an ascending run
+        rows = _IDX_SHAPES[sel](len(s))
+        got = read_batch(p, cols, np.array(rows), units=units)
     else:
         r1 = S.RecordingGenerator(inp["seed"])
         got = read_batch(p, cols, 4, units=units, rng=r1)
